@@ -217,6 +217,8 @@ def shape_faults(doc):
     yield "not_arity_3", with_pattern(pat + [{"$not": ["a", "b", "c"]}])
     yield "deref_without_main_reg", with_pattern([{"mov": [{"$deref": {"constant_offset": "0x8"}}]}] + pat)
     yield "deref_empty", with_pattern([{"mov": [{"$deref": {}}]}] + pat)
+    yield "deref_without_main_reg_with_index", with_pattern([{"mov": [{"$deref": {"register_multiplier": "%rcx", "constant_multiplier": 4, "constant_offset": "0x8"}}]}] + pat)
+    yield "deref_without_main_reg_index_only", with_pattern([{"mov": [{"$deref": {"register_multiplier": "%rcx", "constant_multiplier": 4}}]}] + pat)
     for name, t in (("times_negative_int", -1), ("times_negative_min", {"min": -1, "max": 1}), ("times_inverted", {"min": 2, "max": 1}), ("times_only_max_0", {"max": 0}), ("times_negative_both", {"min": -2, "max": -1})):
         yield name, with_pattern([{"mov": {"times": t}}] + pat[1:]) if isinstance(pat[0], str) else with_pattern(pat + [{"nop": {"times": t}}])
         yield name + "_group", with_pattern(pat + [{"$or": ["nop", "ret"], "times": t}])
